@@ -422,6 +422,17 @@ func init() {
 		x.block(g, wCond, "waitgroup wait")
 		return nil
 	})
+	// sync.Pool: no pooling; Get returns New() (or nil), Put drops
+	reg("(*sync.Pool).Get", func(x *Exec, g *G, a []Value) Value {
+		sv := (*a[0].(*Value)).(StructV)
+		nw, _ := sv[len(sv)-1].(*Closure)
+		if nw == nil {
+			return Iface{}
+		}
+		return tailCall{fn: nw}
+	})
+	noop("(*sync.Pool).Put")
+
 	// ---- sync/atomic (function forms; typed methods run their real bodies) ----
 	for _, w := range []struct {
 		n string
